@@ -547,3 +547,72 @@ Proof.
   - intros k Hk. now destruct (P k Hk) as ((Fb & _) & _).
   - intros k Hk. destruct (P k ltac:(lia)) as (_ & M). destruct (M Hk) as ((_ & _ & _ & U1) & U2). split; assumption.
 Qed.
+
+(* ================================================================ concrete systems *)
+(* [[4,1,0],[1,4,1],[0,1,4]] x = [1,2,3] at binary64: gamma_2 = 1/3.75, y_1 = 1.75/3.75, ... are inexact *)
+Definition exT_t : tridiag AF := @mkT AF [1%float; 1%float] [4%float; 4%float; 4%float] [1%float; 1%float] 3.
+Definition exT_r : list pfloat := [1%float; 2%float; 3%float].
+Definition exT_x : list pfloat := match tsolve (A := AF) exT_t exT_r with Ok x => x | Panic _ => [] end.
+
+Lemma exT_solve : tsolve (A := AF) exT_t exT_r = Ok exT_x.
+Proof. vm_compute. reflexivity. Qed.
+
+Ltac fr_bounds f := assert (/ 8 <= FR f <= 4) by (split; fr_eval).
+
+Lemma nounder_prod_small a b : / 8 <= a <= 4 -> / 8 <= b <= 4 -> no_underflow (a * b).
+Proof. intros Ha Hb. apply no_underflow_ge_small. rewrite Rabs_pos_eq by nra. nra. Qed.
+
+Lemma nounder_quot_small a b : / 8 <= a <= 4 -> / 8 <= b <= 4 -> no_underflow (a / b).
+Proof.
+  intros Ha Hb. apply no_underflow_ge_small.
+  assert (/ 4 <= / b) by (apply Rinv_le_contravar; lra).
+  unfold Rdiv. rewrite Rabs_pos_eq by nra. nra.
+Qed.
+
+Lemma exT_conditions :
+  wfT exT_t /\ (1 <= tn exT_t)%nat /\ length exT_r = tn exT_t /\
+  (forall i, (i < tn exT_t)%nat -> ffinite (nth i exT_x 0%float)) /\
+  (forall k, (k < tn exT_t)%nat -> ffinite (tbeta exT_t k)) /\
+  thomas_nounder_matrix exT_t /\ thomas_nounder_rhs exT_t exT_r exT_x.
+Proof.
+  split; [unfold wfT; cbn; auto|]. split; [cbn; lia|]. split; [reflexivity|].
+  split; [intros [|[|[|i]]] Hi; cbn in Hi; try lia; apply ffinite_SF; vm_compute; reflexivity|].
+  split; [intros [|[|[|i]]] Hi; cbn in Hi; try lia; apply ffinite_SF; vm_compute; reflexivity|].
+  assert (E1 : FR 1%float = 1) by fr_eval.
+  fr_bounds (tbeta exT_t 0). fr_bounds (tbeta exT_t 1). fr_bounds (tbeta exT_t 2).
+  fr_bounds (tgamma exT_t 1). fr_bounds (tgamma exT_t 2).
+  fr_bounds (ty exT_t exT_r 0). fr_bounds (ty exT_t exT_r 1).
+  fr_bounds (tnum exT_t exT_r 0). fr_bounds (tnum exT_t exT_r 1). fr_bounds (tnum exT_t exT_r 2).
+  fr_bounds (nth 1 exT_x 0%float). fr_bounds (nth 2 exT_x 0%float).
+  split; [|split].
+  - intros [|[|k]] Hk; cbn in Hk; try lia; cbn [nth exT_t tsup tsub Nat.add]; rewrite E1;
+      (split; [apply nounder_quot_small|apply nounder_prod_small]); assumption || lra.
+  - intros [|[|[|k]]] Hk; cbn in Hk; try lia; apply nounder_quot_small; assumption.
+  - intros [|[|k]] Hk; cbn in Hk; try lia; cbn [nth exT_t tsup tsub Nat.add]; rewrite E1;
+      (split; apply nounder_prod_small); assumption || lra.
+Qed.
+
+Lemma exT_data : tri_finite exT_t /\ tri_scaled exT_t /\ dominant_f exT_t.
+Proof.
+  assert (E1 : FR 1%float = 1) by fr_eval. assert (E4 : FR 4%float = 4) by fr_eval.
+  assert (B300 : 4 <= bpow radix2 300) by (change 4 with (bpow radix2 2); apply bpow_le; lia).
+  assert (Bm300 : bpow radix2 (-300) <= 1) by (change 1 with (bpow radix2 0); apply bpow_le; lia).
+  pose proof OV.Proofs.RoundDotFloat.u64_small as Hu. pose proof u64_range as Hu0.
+  split; [|split].
+  - split.
+    + intros [|[|[|i]]] Hi; cbn in Hi; try lia; apply ffinite_SF; vm_compute; reflexivity.
+    + intros [|[|i]] Hi; cbn in Hi; try lia; split; apply ffinite_SF; vm_compute; reflexivity.
+  - split.
+    + intros [|[|[|i]]] Hi; cbn in Hi; try lia; cbn [nth exT_t tmain]; rewrite E4, Rabs_pos_eq; lra.
+    + intros [|[|i]] Hi; cbn in Hi; try lia; cbn [nth exT_t tsub tsup]; rewrite E1, Rabs_pos_eq by lra; split; right; lra.
+  - intros [|[|[|i]]] Hi; cbn in Hi; try lia; cbn [nth exT_t tmain tsub tsup]; rewrite ?E1, ?E4, ?FR_0, ?Rabs_R0;
+      rewrite ?(Rabs_pos_eq 1), ?(Rabs_pos_eq 4) by lra; lra.
+Qed.
+
+(* a finite answer that hides an overflowed pivot: beta_1 = 2^1023 + 2^1023 = +inf, so y_1 = 2^1023 / inf = 0 and the
+   answer [1; 0] is finite -- the true solution is close to [1/2; 1/2] and row 1 is violated by 2^1023.  This is why the
+   pivots must be assumed (or proved) finite: finiteness of the answer does not imply it. *)
+Definition ovf_t : tridiag AF := @mkT AF [(-0x1p1023)%float] [1%float; 0x1p1023%float] [1%float] 2.
+Lemma thomas_finite_answer_hides_overflow :
+  tsolve (A := AF) ovf_t [1%float; 1%float] = Ok [1%float; 0%float] /\ tbeta ovf_t 1 = infinity.
+Proof. split; vm_compute; reflexivity. Qed.
